@@ -6,6 +6,7 @@ from ..case import Case
 from .common import declare_factor, make_factor, factor_spec_params, spec_eval_ln, fields, gt
 
 PROP = "C01"
+EXTRA_DRAWS = 0      # the thorough tier of this property is long already: no additional draws of the generic rationals
 
 BOUNDS = {
     "quick": "every factor kind (general, rank-one, linear, constant, measure, density) x {multiply, *, hadamard, product} x update_full x cached / uncached covariance; D in {1,2}; (R1,R2) in {(1,1),(2,1),(1,2),(2,3)}; N=1 evaluation point; fully symbolic; operand fields compared before / after",
